@@ -84,11 +84,13 @@ fn c02_scn(name: &str, with_password: bool, full: bool) -> ChatScn {
                             acts.push(Act::Send(i, "PASS good".into()));
                             acts.push(Act::Send(i, "PASS bad".into()));
                         }
+                        // an unregistered (or refused) connection tries to act - also one that has
+                        // given NICK and USER and was refused half-way
+                        acts.push(Act::Send(i, format!("PRIVMSG wit :ghost{}", i)));
                         if full {
                             acts.push(Act::Send(i, "CAP LS 302".into()));
                             acts.push(Act::Send(i, "CAP END".into()));
-                            // an unregistered (or refused) connection tries to act
-                            acts.push(Act::Send(i, format!("PRIVMSG wit :ghost{}", i)));
+                            acts.push(Act::Send(i, "AWAY :ghost".into()));
                             acts.push(Act::Send(i, "NICK z".into()));
                         }
                     }
